@@ -18,6 +18,7 @@ type Attr struct {
 	C    string `json:"c,omitempty"`
 	E    string `json:"e,omitempty"`
 	M    string `json:"m,omitempty"`
+	U    string `json:"u,omitempty"`
 	Then []Attr `json:"then,omitempty"`
 	Else []Attr `json:"else,omitempty"`
 }
@@ -117,7 +118,10 @@ func ParseProgram(line []byte) (Program, error) {
 // Values of the abstract identifiers.
 var (
 	// ExprValues are what env.E(i) returns: no whitespace, but markup metacharacters.
-	ExprValues = map[string]string{"E1": `V1<&>`, "E2": `V2"'=`, "M1": `M1&v`, "K1": "cls1", "K12": "cls1 cls2", "E3": `V3;&#39;`}
+	ExprValues = map[string]string{"E1": `V1<&>`, "E2": `V2"'=`, "M1": `M1&v`, "K1": "cls1", "K12": "cls1 cls2", "E3": `V3;&#39;`,
+		// URL attribute values after sanitisation (U2 is javascript:alert(1)) and style attribute values
+		"U1": "https://x.test/p?a=1&b=<2>", "UBAD": "about:invalid#TemplFailedSanitizationURL",
+		"T1": "color:red;margin:0;", "T2": "color:blue;"}
 	// ConstSpelled is how a constant attribute value id is written in the source (double-quoted form);
 	// ConstDecoded is the value the attribute denotes.
 	ConstDecoded = map[string]string{"k1": "v1", "k2": "a&b<c", "k3": `q"q`, "k4": "x&lt;y&#39;", "k5": "/e?a=1&copy=2&lt=3", "k6": `C:\temp\new\d+`}
@@ -135,6 +139,35 @@ var (
 	RawContents = map[string]string{"style": "p{color:red}", "script": "var x = 1 < 2 && 3 > 2;",
 		"scriptgo": "var a = {{ env.E(1) }}  \t;var b = [{{ env.E(1) }} , 2];"}
 )
+
+// OddAttrSpansLines reports whether the odd spelling writes the attribute expressions of this element over several
+// lines (the other elements get the block-comment spelling): a local rule, so that harnesses can tell which start
+// tags span lines.
+func OddAttrSpansLines(el string, odd int) bool {
+	return odd&OddAttrExprSpansLines != 0 && len(el)%2 == 1
+}
+
+// OddStartTagSpansLines: the element's start tag spans lines in the odd spelling.
+func OddStartTagSpansLines(n Node, odd int) bool {
+	if n.K != "el" && n.K != "void" || !OddAttrSpansLines(n.Name, odd) {
+		return false
+	}
+	for _, a := range n.Attrs {
+		if a.A == "expr" {
+			return true
+		}
+	}
+	return false
+}
+
+// URLExpr is the Go expression of a sanitised URL attribute value: <a href> takes a templ.SafeURL, every other
+// element's href is an ordinary string attribute.
+func URLExpr(el, u string) string {
+	if el == "a" {
+		return "templ.URL(env.U(" + num(u) + "))"
+	}
+	return "string(templ.URL(env.U(" + num(u) + ")))"
+}
 
 // CSSClassID is the id of a css template's class: its name and the first 8 hex digits of the SHA-256 of its text
 // (second key for the runtime's own computation).
@@ -181,7 +214,7 @@ const (
 	OddCallBlockOneLine               // component call with a child block written on one line: @wrap() { <b>x</b> }
 	OddCommentBeforeTempl             // file level: a Go block ending in an INDENTED // comment directly in front of `templ`
 	OddHeaderSpansLines               // if / else if / for header whose Go expression spans lines (continuation lines indented)
-	OddAttrExprSpansLines             // every second attribute expression spans lines and holds a raw string with a line break
+	OddAttrExprSpansLines             // attribute expressions of elements with odd-length names span lines and hold a raw string with a line break
 	OddAll                = OddGoCodeTwo | OddCondOneLine | OddExprComment | OddCallBlockOneLine | OddCommentBeforeTempl | OddHeaderSpansLines | OddAttrExprSpansLines
 )
 
@@ -190,8 +223,8 @@ type printer struct {
 	v   Variant
 	odd int // feature mask of the odd spelling (variant 3)
 
+	elName    string // name of the element whose attributes are being printed
 	next      *Node // the sibling that follows the node being printed (nil: none)
-	nExprAttr int   // attribute expressions printed so far (the odd spellings alternate)
 }
 
 func (p *printer) ws(kind string, depth int) {
@@ -262,8 +295,7 @@ func (p *printer) attrs(as []Attr, depth int) {
 				fmt.Fprintf(&p.sb, "%s%s?={ env.C(%s) }", sep, a.N, num(a.C))
 			}
 		case "expr":
-			p.nExprAttr++
-			if p.v == 3 && p.odd&OddAttrExprSpansLines != 0 && p.nExprAttr%2 == 0 {
+			if p.v == 3 && OddAttrSpansLines(p.elName, p.odd) {
 				// the raw string's second line starts with two spaces: its content is part of the program
 				in := strings.Repeat("\t", depth+2)
 				fmt.Fprintf(&p.sb, "%s%s={\n%senv.ER(%s, `a\n  b`),\n%s}", sep, a.N, in, num(a.E), in[1:])
@@ -279,6 +311,18 @@ func (p *printer) attrs(as []Attr, depth int) {
 				fmt.Fprintf(&p.sb, "%sclass={env.K(%s)}", sep, num(a.E))
 			} else {
 				fmt.Fprintf(&p.sb, "%sclass={ env.K(%s) }", sep, num(a.E))
+			}
+		case "url":
+			if p.v == 1 {
+				fmt.Fprintf(&p.sb, "%shref={%s}", sep, URLExpr(p.elName, a.U))
+			} else {
+				fmt.Fprintf(&p.sb, "%shref={ %s }", sep, URLExpr(p.elName, a.U))
+			}
+		case "style":
+			if p.v == 1 {
+				fmt.Fprintf(&p.sb, "%sstyle={env.T%s()}", sep, num(a.E))
+			} else {
+				fmt.Fprintf(&p.sb, "%sstyle={ env.T%s() }", sep, num(a.E))
 			}
 		case "cssclass":
 			if p.v == 1 {
@@ -346,6 +390,7 @@ func (p *printer) attrs(as []Attr, depth int) {
 func (p *printer) attrs1(a Attr) {
 	var q printer
 	q.v = p.v
+	q.elName = p.elName
 	if q.v == 2 || q.v == 3 {
 		q.v = 0
 	}
@@ -399,6 +444,7 @@ func (p *printer) node(n Node, depth int) {
 		p.ws(n.Tr, depth)
 	case "void":
 		p.sb.WriteString("<" + n.Name)
+		p.elName = n.Name
 		p.attrs(n.Attrs, depth)
 		if p.v == 1 {
 			p.sb.WriteString(">")
@@ -408,6 +454,7 @@ func (p *printer) node(n Node, depth int) {
 		p.ws(n.Tr, depth)
 	case "el":
 		p.sb.WriteString("<" + n.Name)
+		p.elName = n.Name
 		p.attrs(n.Attrs, depth)
 		p.sb.WriteString(">")
 		if len(n.Kids) > 0 {
